@@ -29,6 +29,7 @@ class Desc:
     types: Optional[List[str]] = None     # types to check (default: all packets and structs)
     roundtrip: bool = True                # in the round-trippable class of C02
     notes: str = ''
+    core: bool = False                    # always part of the quick tier selection
 
     def check_types(self):
         if self.types is not None:
@@ -46,7 +47,7 @@ def _le(decls, name=''):
 def both(desc: Desc) -> List[Desc]:
     """the description and its big-endian twin"""
     t = Desc(desc.id + '_be', desc.file.twin(), desc.family, desc.rust, desc.python, desc.types,
-             desc.roundtrip, desc.notes)
+             desc.roundtrip, desc.notes, desc.core)
     desc.id += '_le'
     return [desc, t]
 
@@ -237,6 +238,25 @@ def f2(tier, rnd) -> List[Desc]:
     pk = [M.packet('A_pad2', [M.array('arr', width=8), M.padding(2), M.scalar('t', 8)]),
           M.packet('A_pad3c', [M.count('arr', 8), M.array('arr', width=16), M.padding(3), M.scalar('t', 8)])]
     out.extend(both(Desc('f2_smallpad', _le(pk), 'F2', roundtrip=False)))
+    # static count of exactly one element, static arrays with padding (special-cased in the generators)
+    pk = [M.packet('One8', [M.scalar('tag', 8), M.array('x', width=8, count=1)]),
+          M.packet('One32', [M.scalar('tag', 8), M.array('x', width=32, count=1)]),
+          M.packet('OneEn', [M.scalar('tag', 8), M.array('x', type_id='En16', count=1), M.scalar('t', 8)]),
+          M.packet('OneSst', [M.array('x', type_id='Sst', count=1)]),
+          M.packet('StaticPad', [M.scalar('a', 8), M.array('x', width=16, count=2), M.padding(6), M.scalar('b', 8)]),
+          M.packet('StaticPadEq', [M.array('x', width=16, count=2), M.padding(4), M.scalar('b', 8)]),
+          M.packet('PayloadThenPad', [M.scalar('tag', 8), M.payload(), M.array('trailer', width=16, count=2), M.padding(6)])]
+    out.extend(both(Desc('f2_static_special', _le([ed['En16'], ed['Sst']] + pk), 'F2', core=True)))
+    # arrays of derived structs (static total size through inheritance)
+    Base = M.struct('Base', [M.scalar('tag', 8), M.payload()])
+    Item = M.struct('Item', [M.scalar('v', 16)], 'Base', [('tag', 7)])
+    pk = [M.packet('Table', [M.scalar('hdr', 8), M.array('items', type_id='Item'), M.padding(8), M.scalar('trailer', 8)]),
+          M.packet('TableSz', [M.size('items', 8), M.array('items', type_id='Item'), M.scalar('trailer', 8)]),
+          M.packet('Outer', [M.scalar('kind', 8), M.size('_payload_', 8), M.payload()]),
+          M.packet('Inner', [M.array('items', type_id='Item')], 'Outer', [('kind', 1)])]
+    out.extend(both(Desc('f2_derived_elem', _le([Base, Item] + pk), 'F2', python=False, core=True,
+                         types=['Table', 'TableSz', 'Inner'],
+                         notes='python cannot parse arrays of derived structs (Child.parse needs the parent fields)')))
     # element-size fields (Rust backend only)
     U = M.struct('Uk', [M.array('v', width=8)])
     pk = [M.packet('ES_static', [M.elemsize('arr', 4), M.reserved(4), M.array('arr', type_id='Uk', count=2)]),
@@ -324,6 +344,13 @@ def f4(tier, rnd) -> List[Desc]:
          M.packet('L3', [M.scalar('d', 8), M.payload()], 'L2', [('c', 3)]),
          M.packet('L4', [M.scalar('e', 8)], 'L3', [('d', 4)])]
     out.extend(both(Desc('f4_depth4', _le(d), 'F4')))
+    # a struct with its own payload used as a field of a child of a size-delimited parent
+    Tlv = M.struct('Tlv', [M.scalar('tag', 8), M.size('_payload_', 8), M.payload()])
+    d = [Tlv, M.packet('Parent', [M.scalar('op', 8), M.size('_payload_', 8), M.payload()]),
+         M.packet('Child', [M.typedef('t', 'Tlv'), M.scalar('x', 16)], 'Parent', [('op', 3)]),
+         M.packet('Flat', [M.typedef('t', 'Tlv'), M.scalar('x', 8)]),
+         M.packet('Items', [M.size('v', 8), M.array('v', type_id='Tlv'), M.scalar('x', 8)])]
+    out.extend(both(Desc('f4_tlv_field', _le(d), 'F4', core=True)))
     # child with arrays and a sized payload of its own
     d = [M.packet('P', [M.scalar('a', 8), M.size('_payload_', 8), M.payload()]),
          M.packet('C', [M.count('v', 8), M.array('v', width=16)], 'P', [('a', 9)])]
@@ -345,6 +372,16 @@ def f5(tier, rnd) -> List[Desc]:
           M.packet('Opt8', [M.scalar('x', 7), M.scalar('c', 1), M.scalar('a', 8, cond=('c', 1)), M.scalar('t', 8)]),
           M.packet('Opt64', [M.scalar('c', 1), M.reserved(7), M.scalar('a', 64, cond=('c', 1))])]
     out = both(Desc('f5_basic', _le([E, Sst, Sdy] + pk), 'F5'))
+    En24 = M.enum('En24', 24, [M.TagValue('A', 0xa0b0c0), M.TagValue('B', 0x010203)])
+    pk = [M.packet('Opt24', [M.scalar('c', 1), M.reserved(7), M.scalar('a', 24, cond=('c', 1))]),
+          M.packet('Opt40p', [M.scalar('c', 1), M.reserved(7), M.scalar('a', 40, cond=('c', 1)), M.payload()]),
+          M.packet('Opt56t', [M.scalar('c', 1), M.reserved(7), M.scalar('a', 56, cond=('c', 0)), M.scalar('t', 8)]),
+          M.packet('OptEn24', [M.scalar('c', 1), M.reserved(7), M.typedef('e', 'En24', cond=('c', 1))]),
+          M.packet('OptEn24t', [M.scalar('c', 1), M.scalar('d', 1), M.reserved(6), M.typedef('e', 'En24', cond=('c', 1)),
+                                M.scalar('k', 16, cond=('d', 1)), M.scalar('tail', 8)]),
+          M.packet('Par', [M.scalar('op', 8), M.size('_payload_', 8), M.payload()]),
+          M.packet('OptChild', [M.scalar('c', 1), M.reserved(7), M.typedef('e', 'En24', cond=('c', 1))], 'Par', [('op', 9)])]
+    out += both(Desc('f5_odd_widths', _le([En24] + pk), 'F5', core=True))
     pk = [M.packet('TwoSame', [M.scalar('c', 1), M.reserved(7), M.scalar('a', 8, cond=('c', 1)),
                                M.scalar('b', 16, cond=('c', 1))]),
           M.packet('TwoOpp', [M.scalar('c', 1), M.reserved(7), M.scalar('a', 8, cond=('c', 1)),
